@@ -487,6 +487,7 @@ auto req_compactor<T, C, A>::deserialize_items(const void* bytes, size_t size, c
 -> std::pair<std::unique_ptr<T, items_deleter>, size_t> {
   const char* ptr = static_cast<const char*>(bytes);
   const char* end_ptr = static_cast<const char*>(bytes) + size;
+  ensure_minimum_memory(size, num); // every serialized item takes at least one byte
   A alloc(allocator);
   std::unique_ptr<T, items_deleter> items(alloc.allocate(num), items_deleter(allocator, false, num));
   ptr += serde.deserialize(ptr, end_ptr - ptr, items.get(), num);
